@@ -169,13 +169,24 @@ def shadow_cases(rng, n):
         if len(cells) < 2:
             continue
         br, bc = rng.choice(cells)
-        ags = [wagent(1, (ar, ac), HD, rng.choice([None, 3])), wagent(2, (br, bc), HD, None, 1)]
+        ags = [wagent(1, (ar, ac), HD, rng.choice([None, 2, 3])), wagent(2, (br, bc), HD, None, 1)]
         dr, dc = (br > ar) - (br < ar), (bc > ac) - (bc < ac)
         behind = [(r, c) for (r, c) in cells if (r, c) != (br, bc)
                   and (r - br) * dr >= 0 and (c - bc) * dc >= 0]
         border = [(r, c) for (r, c) in behind if abs(r - ar) == R or abs(c - ac) == R]
+        if behind and rng.random() < 0.5:
+            # a second blocker standing behind the first one (possibly inside its shadow): its own
+            # shadow is not contained in the first one's
+            b2 = rng.choice(behind)
+            ags.append(wagent(2, b2, HD, None, 1))
+            d2r, d2c = (b2[0] > ar) - (b2[0] < ar), (b2[1] > ac) - (b2[1] < ac)
+            behind2 = [(r, c) for (r, c) in cells if (r, c) not in ((br, bc), b2)
+                       and (r - b2[0]) * d2r >= 0 and (c - b2[1]) * d2c >= 0]
+            border = border + behind2 * 2
+            if rng.random() < 0.5:
+                ags[1], ags[-1] = ags[-1], ags[1]      # registration order of the two blockers
         pool = border * 3 + behind
-        for pos in rng.sample(pool, min(len(pool), rng.randint(1, 4))):
+        for pos in rng.sample(pool, min(len(pool), rng.randint(1, 5))):
             if all(tuple(a[1]) != pos for a in ags):
                 ags.append(wagent(3, pos, HD, None, 0))
         kind = rng.choice([0, 0, 1, 2, 3])
@@ -191,7 +202,7 @@ def shadow_cases(rng, n):
 
 def gen(tier, rng):
     quick = tier != "thorough"
-    yield from shadow_cases(rng, 120 if quick else 3000)
+    yield from shadow_cases(rng, 200 if quick else 4000)
     n_layouts = 260 if quick else 6000
     cap = 40 if quick else 600
     for _ in range(n_layouts):
